@@ -237,6 +237,11 @@ func updateChildren(client *dynamicclientset.ResourceClient, updateStrategy Chil
 
 	for name, obj := range desired {
 		if ssaOptions.Strategy == ApplyStrategyServerSideApply {
+			// We always claim everything we create. The reference is part of
+			// every apply, otherwise a later apply would drop it again.
+			if !metav1.IsControlledBy(obj, parent) {
+				obj.SetOwnerReferences(append(obj.GetOwnerReferences(), *MakeControllerRef(parent)))
+			}
 			data, err := json.Marshal(obj)
 			if err != nil {
 				errs = append(errs, err)
